@@ -372,6 +372,24 @@ func (bc *buildCtx) realImpl(d *D) interface{} {
 			m[bc.real(d.Sub[i])] = bc.real(d.Sub[i+1])
 		}
 		return m
+	case "kmap": // map[interface{}]interface{} with keys of mixed kinds (fmtsort's cross-type ordering), incl. the nil key
+		m := map[interface{}]interface{}{}
+		for i := 0; i+1 < len(d.Sub); i += 2 {
+			m[bc.keyOf(d.Sub[i])] = bc.real(d.Sub[i+1])
+		}
+		return m
+	case "fmap":
+		m := map[float64]string{}
+		for i := 0; i+1 < len(d.Sub); i += 2 {
+			m[d.Sub[i].F] = string(d.Sub[i+1].S)
+		}
+		return m
+	case "amap":
+		m := map[[2]int]bool{}
+		for i := 0; i+1 < len(d.Sub); i += 2 {
+			m[[2]int{int(d.Sub[i].N), int(d.Sub[i].N >> 8)}] = d.Sub[i+1].N != 0
+		}
+		return m
 	case "mapIntStr":
 		m := map[int]string{}
 		for i := 0; i+1 < len(d.Sub); i += 2 {
@@ -853,4 +871,24 @@ func leafBracketable(k string) bool {
 		return true
 	}
 	return intOfKind(k, 0) != nil
+}
+
+type tKeyStruct struct {
+	A int
+	B string
+}
+
+// keyOf builds a comparable map key of one of several kinds.
+func (bc *buildCtx) keyOf(d *D) interface{} {
+	switch d.K {
+	case "nil":
+		return nil
+	case "kstruct":
+		return tKeyStruct{int(d.N), string(d.S)}
+	case "karr":
+		return [2]int{int(d.N), int(d.N >> 4)}
+	case "kcomplex":
+		return complex(d.F, float64(d.N))
+	}
+	return bc.real(d)
 }
